@@ -93,6 +93,17 @@ def body(run):
                               observed=dict(err=rec['err'], exc=rec['exc']), signature=dict(kind='write-wrong', err=rec['err']))
         cases.append(rec['case'])
         metas.append(rec['desc'])
+        # the same placement rule for validity when the dataset has no nodata value (internal mask): window inside the array footprint
+        if k % 3 == 0 and ah >= 2 and aw >= 2:
+            h2, w2 = wrng.randint(1, ah), wrng.randint(1, aw)
+            win2 = (ar + wrng.randint(0, ah - h2), ac + wrng.randint(0, aw - w2), h2, w2)
+            rm = impl_io.write_mask_case(run.work, wrng, H, W, (ar, ac), (ah, aw), win2)
+            rels['write-mask'] = rels.get('write-mask', 0) + 1
+            run.count_case(('wm', k), True, None)
+            if not rm['oracle_ok']:
+                run.add_violation('to_rio_dataset misplaced the validity mask (dataset without nodata value)', rm['desc'],
+                                  expected='mask inside the cropped window = validity of the array pixel at that location; untouched outside',
+                                  observed=dict(err=rm['err'], **rm['observed']), signature=dict(kind='write-mask-wrong'))
     failing, nt = run.corr('io', 'Corr.CheckC20', cases, shard=400)
     for k in failing[:5]:
         run.add_break('correspondence-break', 'from_rio_dataset / to_rio_dataset differ from Grid.Dataset.read_window / write_window', metas[k])
